@@ -67,7 +67,7 @@ def build_harness():
         if not os.path.exists(dst):
             with open(dst, "w") as f:
                 f.write(src)
-    r = sh("cargo build --release --offline 2>&1", cwd=hdir, timeout=1800)
+    r = sh("cargo build --release --offline --target-dir %s 2>&1" % os.path.join(BUILD, "harness_target"), cwd=hdir, timeout=1800)
     if r.returncode != 0 or not os.path.exists(IMPL_RUN):
         raise BuildError("cargo build of the harness against /repo failed:\n" + r.stdout[-4000:])
 
